@@ -5,11 +5,23 @@ import SlugModel.Lemmas.UnpackInv
 /-!
 # Lemmas/SanitiseInv — what the package preparation walk changes, and what it checks
 
-Helper lemmas for `Props/C10`.  `SnSub fs' fs`: `fs'` is `fs` with some bindings removed (the walk
-only deletes).  `SanAt W fs path`: `path` is an absolute clean path at or below the work directory
-none of whose proper prefixes is a link — what every path handed to `prepVisit` satisfies, so
-`RemoveAll(path)` acts at the physical location `pathSegs path`.  `SnStep W fs fs'`: only bindings
-at or below `W` are removed.
+Helper lemmas for `Props/C10`.
+* `SnSub fs' fs`: `fs'` is `fs` with some bindings removed (the walk only deletes; `snSub_walk`).
+* `SanAt W fs path`: `path` is an absolute clean path at or below the work directory none of whose
+  proper prefixes is a link — what every path handed to `prepVisit` satisfies, so `RemoveAll(path)`
+  acts at the physical location `pathSegs path`.  `SanNames W fs`: keys below `W` consist of names.
+* `SnStep W fs fs'`: only bindings at or below `W` are removed, `KeysPhysical` is kept
+  (`snStep_walk`: the frame induction over `prepWalk`/`prepChildren`).
+* `sn_prepVisit_eq`, `sn_ensurePrepared_eq`: the callback and `ensurePrepared` in normal form
+  (`snIsDir`, `snCheck`, `snRules`, `snFinish`), with inversion lemmas.
+* `sn_mem_readdir`, `sn_mem_filesBelow`, `sn_hashable`: directory listings and the hash.
+* `sn_renameDir_*`: `renameDir` as a re-keying map (frame, source gone, subtree moved).
+* `SanCtx`, `SanKind`, `SanGood`, `SanPost`, `sn_walk_post`: every binding a non-failing walk leaves
+  below the work directory has passed the callback (completeness of the walk).
+* `sn_resolve_mono`: a resolution that still succeeds after deletions went the same way before.
+* `SnLocalLink`, `sn_resolve_rekey`, `sn_resolve_spine_*`: resolution commutes with re-keying a
+  subtree whose links are local.
+* `SanCheck`: decidable form of the hypotheses, for closed examples.
 -/
 namespace Slug
 
@@ -147,7 +159,7 @@ def snCheck (fs : FS) (root rel : Str) : SRes :=
         | some (.dir _ _) => .cont
         | _ => .fail
 
-theorem prepVisit_eq (rules : List Rule) (root : Str) (fs : FS) (absPath : Str) (node : Node) :
+theorem sn_prepVisit_eq (rules : List Rule) (root : Str) (fs : FS) (absPath : Str) (node : Node) :
     prepVisit rules root fs absPath node =
       match pathRel root absPath with
       | none => (fs, .fail)
@@ -207,10 +219,10 @@ theorem prepVisit_eq (rules : List Rule) (root : Str) (fs : FS) (absPath : Str) 
         | special => simp only [snIsDir, Bool.false_and, Bool.false_eq_true, if_false]; exact tail
 
 /-- the callback either leaves the filesystem alone or removes the visited path -/
-theorem prepVisit_fst_cases (rules : List Rule) (root : Str) (fs : FS) (absPath : Str) (node : Node) :
+theorem sn_prepVisit_fst_cases (rules : List Rule) (root : Str) (fs : FS) (absPath : Str) (node : Node) :
     (prepVisit rules root fs absPath node).1 = fs ∨
     (prepVisit rules root fs absPath node).1 = fs.removeAll absPath := by
-  rw [prepVisit_eq]
+  rw [sn_prepVisit_eq]
   split
   · exact Or.inl rfl
   · split
@@ -223,7 +235,7 @@ theorem prepVisit_fst_cases (rules : List Rule) (root : Str) (fs : FS) (absPath 
 
 theorem snSub_prepVisit (rules : List Rule) (root : Str) (fs : FS) (absPath : Str) (node : Node) :
     SnSub (prepVisit rules root fs absPath node).1 fs := by
-  rcases prepVisit_fst_cases rules root fs absPath node with e | e
+  rcases sn_prepVisit_fst_cases rules root fs absPath node with e | e
   · rw [e]; exact SnSub.refl _
   · rw [e]; exact snSub_removeAll _ _
 
@@ -521,7 +533,7 @@ theorem snStep_removeAll {W : PPath} {fs : FS} {path : Str} (h : SanAt W fs path
 
 theorem snStep_prepVisit (rules : List Rule) (root : Str) {W : PPath} {fs : FS} {path : Str} (node : Node)
     (h : SanAt W fs path) : SnStep W fs (prepVisit rules root fs path node).1 := by
-  rcases prepVisit_fst_cases rules root fs path node with e | e
+  rcases sn_prepVisit_fst_cases rules root fs path node with e | e
   · rw [e]; exact SnStep.refl _ _
   · rw [e]; exact snStep_removeAll h
 
@@ -845,7 +857,7 @@ def snFinish (fs1 : FS) (work final : Str) : FS × EnsureRes :=
       | .ok (.dir _ _) => (fs1.removeAll work, .ok (pathSegs final))
       | _ => (fs1.renameDir wp (pathSegs final), .ok (pathSegs final))
 
-theorem ensurePrepared_eq (fs : FS) (work final : Str) :
+theorem sn_ensurePrepared_eq (fs : FS) (work final : Str) :
     ensurePrepared fs work final =
       match fs.lstat work with
       | .error _ => (fs, .fail)
@@ -910,7 +922,7 @@ theorem sn_ensure_ok {fs : FS} {work final : Str} {fs' : FS} {d : PPath}
     ∃ n fs1 r, fs.lstat work = .ok n ∧
       prepWalk (snRules fs work) work prepFuel fs work n = (fs1, r) ∧ (r = .cont ∨ r = .skipDir) ∧
       snFinish fs1 work final = (fs', .ok d) := by
-  rw [ensurePrepared_eq] at h
+  rw [sn_ensurePrepared_eq] at h
   split at h
   · cases h
   · rename_i n hn
@@ -928,7 +940,7 @@ theorem sn_ensure_fst (fs : FS) (work final : Str) :
       ((ensurePrepared fs work final).1 = (prepWalk (snRules fs work) work prepFuel fs work n).1 ∨
        (ensurePrepared fs work final).1 =
          (snFinish (prepWalk (snRules fs work) work prepFuel fs work n).1 work final).1) := by
-  rw [ensurePrepared_eq]
+  rw [sn_ensurePrepared_eq]
   split
   · exact Or.inl rfl
   · rename_i n hn
@@ -969,5 +981,678 @@ theorem sanAt_of_realParent {fs : FS} {path : Str} (hc : AbsClean path)
     exact List.prefix_append _ _
   obtain ⟨a, b, hd⟩ := hreal q hq'
   rw [hd] at hl; cases hl
+
+/-- after the walk the work directory still resolves to itself -/
+theorem sn_work_resolves {fs fs1 : FS} {work : Str} (hc : AbsClean work) (hreal : RealDir fs (pathSegs work))
+    (hs : SnSub fs1 fs) {wp : PPath} (h : fs1.resolvePath work true = .ok wp) :
+    wp = pathSegs work ∧ fs1.resolvePath work false = .ok (pathSegs work) := by
+  have hA : SanAt (pathSegs work) fs1 work := (sanAt_root hc hreal).sub hs
+  have hnl := sn_notLink_sub hs (sn_root_notLink hreal)
+  rw [hA.resolve_eq hnl] at h
+  have := hA.resolve_false h
+  subst this
+  exact ⟨rfl, h⟩
+
+/-! ## checking the hypotheses on a concrete filesystem (for closed examples) -/
+
+instance snDecNameNS (x : Seg) : Decidable (NameNS x) := by unfold NameNS; infer_instance
+
+instance snDecAbsClean (s : Str) : Decidable (AbsClean s) := by unfold AbsClean; infer_instance
+
+/-- decidable form of `RealDir ∧ KeysPhysical ∧ SanNames` (checks shadowed bindings too) -/
+def SanCheck (fs : FS) (W : PPath) : Prop :=
+  (∀ k, k < W.length + 1 → isDirB (fs.lookup (W.take k)) = true) ∧
+  (∀ e ∈ fs, e.1 ≠ [] ∧ isDirB (fs.lookup e.1.dropLast) = true) ∧
+  (∀ e ∈ fs, W <+: e.1 → ∀ x ∈ e.1, NameNS x)
+
+instance snDecSanCheck (fs : FS) (W : PPath) : Decidable (SanCheck fs W) := by
+  unfold SanCheck; infer_instance
+
+theorem sanCheck_sound {fs : FS} {W : PPath} (h : SanCheck fs W) :
+    RealDir fs W ∧ KeysPhysical fs ∧ SanNames W fs := by
+  obtain ⟨h1, h2, h3⟩ := h
+  refine ⟨realDir_of_check h1, keysPhysical_of_check h2, ?_⟩
+  intro k n hg hu
+  exact h3 (k, n) (get_mem hg) hu
+
+/-! ## the check, read backwards -/
+
+theorem sn_check_cont {fs : FS} {root rel : Str} (h : snCheck fs root rel = .cont) :
+    ∃ absRoot real, fs.evalSymlinks root = some absRoot ∧
+      fs.evalSymlinks (pathJoin (ofSegs absRoot) rel) = some real ∧ absRoot <+: real ∧
+      ((∃ pm mt c, fs.lookup real = some (.file pm mt c)) ∨ (∃ pm mt, fs.lookup real = some (.dir pm mt))) := by
+  unfold snCheck at h
+  split at h
+  · cases h
+  · rename_i absRoot hroot
+    split at h
+    · cases h
+    · rename_i real hreal
+      split at h
+      · cases h
+      · rename_i hpre
+        have hpre' : absRoot <+: real := by
+          apply List.isPrefixOf_iff_prefix.mp
+          cases hb : absRoot.isPrefixOf real with
+          | true => rfl
+          | false => rw [hb] at hpre; simp at hpre
+        refine ⟨absRoot, real, hroot, hreal, hpre', ?_⟩
+        split at h
+        · rename_i pm mt c hl; exact Or.inl ⟨pm, mt, c, hl⟩
+        · rename_i pm mt hl; exact Or.inr ⟨pm, mt, hl⟩
+        · cases h
+
+theorem sn_check_cases (fs : FS) (root rel : Str) : snCheck fs root rel = .cont ∨ snCheck fs root rel = .fail := by
+  unfold snCheck
+  repeat' split
+  all_goals first | exact Or.inl rfl | exact Or.inr rfl
+
+/-- the callback never answers `SkipDir` for anything but a directory -/
+theorem sn_skipDir_only_dirs {rules : List Rule} {root : Str} {fs fs' : FS} {absPath : Str} {node : Node}
+    (h : prepVisit rules root fs absPath node = (fs', .skipDir)) : snIsDir node = true := by
+  rw [sn_prepVisit_eq] at h
+  split at h
+  · cases h
+  · split at h
+    · cases h
+    · split at h
+      · cases h
+      · split at h
+        · rename_i hc
+          simp only [Bool.and_eq_true] at hc
+          exact hc.1
+        · rename_i rel _ _ _ _
+          have h2 : snCheck fs root rel = .skipDir := congrArg Prod.snd h
+          rcases sn_check_cases fs root rel with e | e <;> rw [e] at h2 <;> cases h2
+
+theorem sn_walk_nondir_noskip {rules : List Rule} {root : Str} {fuel : Nat} {fs fs' : FS} {path : Str}
+    {node : Node} (hn : snIsDir node = false)
+    (h : prepWalk rules root fuel fs path node = (fs', .skipDir)) : False := by
+  cases fuel with
+  | zero => rw [prepWalk] at h; cases h
+  | succ fuel =>
+    cases node with
+    | dir pm mt => cases hn
+    | file pm mt c =>
+      rw [prepWalk] at h
+      · have := sn_skipDir_only_dirs h; cases this
+      · intro _ _ e; cases e
+    | link t =>
+      rw [prepWalk] at h
+      · have := sn_skipDir_only_dirs h; cases this
+      · intro _ _ e; cases e
+    | special =>
+      rw [prepWalk] at h
+      · have := sn_skipDir_only_dirs h; cases this
+      · intro _ _ e; cases e
+
+/-! ## resolution in a filesystem with fewer bindings -/
+
+/-- a resolution that succeeds and finds something after bindings were removed went the same way
+before -/
+theorem sn_resolve_mono {fs' fs : FS} (hs : SnSub fs' fs) :
+    ∀ (fuel : Nat) (cur : PPath) (segs : List Seg) (follow : Bool) (p : PPath),
+      resolve fs' fuel cur segs follow = .ok p → (fs'.lookup p).isSome = true →
+      resolve fs fuel cur segs follow = .ok p := by
+  intro fuel
+  induction fuel with
+  | zero => intro cur segs follow p h _; simp [resolve] at h
+  | succ fuel ih =>
+    intro cur segs follow p h hp
+    cases segs with
+    | nil => simpa [resolve] using h
+    | cons s rest =>
+      rw [resolve] at h ⊢
+      by_cases hs' : s = dotdot
+      · rw [if_pos hs'] at h ⊢
+        exact ih _ _ _ _ h hp
+      · rw [if_neg hs'] at h ⊢
+        simp only at h ⊢
+        cases hl : fs'.lookup (cur ++ [s]) with
+        | none =>
+          rw [hl] at h
+          simp only at h
+          split at h
+          · cases h; rw [hl] at hp; cases hp
+          · cases h
+        | some n =>
+          rw [hl] at h
+          rw [hs.lookup_some hl]
+          cases n with
+          | dir pm mt => simp only at h ⊢; exact ih _ _ _ _ h hp
+          | file pm mt c => exact h
+          | special => exact h
+          | link t =>
+            simp only at h ⊢
+            split
+            · rename_i hc; rw [if_pos hc] at h; exact h
+            · rename_i hc
+              rw [if_neg hc] at h
+              split
+              · rename_i ht; rw [if_pos ht] at h; exact h
+              · rename_i ht; rw [if_neg ht] at h; exact ih _ _ _ _ h hp
+
+theorem sn_evalSymlinks_mono {fs' fs : FS} (hs : SnSub fs' fs) {path : Str} {p : PPath}
+    (h : fs'.evalSymlinks path = some p) : fs.evalSymlinks path = some p := by
+  obtain ⟨h1, n, h2⟩ := sn_evalSymlinks_some h
+  have := sn_resolve_mono hs _ _ _ _ _ h1 (by rw [h2]; rfl)
+  exact sn_evalSymlinks_of_resolve this (hs.lookup_some h2)
+
+/-! ## what a successful walk has checked -/
+
+/-- the standing facts during the walk of `work`: `fs0` is the fetched tree, `fs` the current state -/
+structure SanCtx (work : Str) (fs0 fs : FS) : Prop where
+  clean : AbsClean work
+  real : RealDir fs0 (pathSegs work)
+  sub : SnSub fs fs0
+  names : SanNames (pathSegs work) fs
+  keys : KeysPhysical fs
+
+theorem SanCtx.step {work : Str} {fs0 fs fs' : FS} (h : SanCtx work fs0 fs)
+    (hs : SnStep (pathSegs work) fs fs') : SanCtx work fs0 fs' :=
+  ⟨h.clean, h.real, h.sub.trans hs.sub, h.names.sub hs.sub, hs.keys h.keys⟩
+
+/-- the kind of a node that passed: a regular file, a directory, or a link that resolved — in some
+state `fsk` between then and now — to a regular file or directory physically inside the package -/
+def SanKind (work : Str) (fs' : FS) (k : PPath) : Node → Prop
+  | .file _ _ _ => True
+  | .dir _ _ => True
+  | .special => False
+  | .link _ => ∃ fsk real, SnSub fs' fsk ∧ fsk.evalSymlinks (ofSegs k) = some real ∧
+      pathSegs work <+: real ∧
+      ((∃ pm mt c, fsk.lookup real = some (.file pm mt c)) ∨ (∃ pm mt, fsk.lookup real = some (.dir pm mt)))
+
+/-- the binding `k ↦ n` has passed the callback: it is the root, or it is not excluded and of an
+admissible kind -/
+def SanGood (rules : List Rule) (work : Str) (fs' : FS) (k : PPath) (n : Node) : Prop :=
+  ∃ rel, pathRel work (ofSegs k) = some rel ∧
+    (rel = dot ∨
+      ((excludes rules rel).1 = false ∧ (snIsDir n && (excludes rules (rel ++ ['/'])).1) = false ∧
+        SanKind work fs' k n))
+
+theorem SanKind.mono {work : Str} {fs1 fs2 : FS} {k : PPath} {n : Node} (h : SanKind work fs1 k n)
+    (hs : SnSub fs2 fs1) : SanKind work fs2 k n := by
+  cases n with
+  | file pm mt c => trivial
+  | dir pm mt => trivial
+  | special => exact h
+  | link t =>
+    obtain ⟨fsk, real, h1, h2⟩ := h
+    exact ⟨fsk, real, h1.trans hs, h2⟩
+
+theorem SanGood.mono {rules : List Rule} {work : Str} {fs1 fs2 : FS} {k : PPath} {n : Node}
+    (h : SanGood rules work fs1 k n) (hs : SnSub fs2 fs1) : SanGood rules work fs2 k n := by
+  obtain ⟨rel, h1, h2⟩ := h
+  refine ⟨rel, h1, ?_⟩
+  rcases h2 with e | ⟨a, b, c⟩
+  · exact Or.inl e
+  · exact Or.inr ⟨a, b, c.mono hs⟩
+
+theorem sn_pathRel_self (a : Str) : pathRel a a = some dot := by
+  unfold pathRel; simp
+
+/-- the callback on a visited path: either the path is removed with everything below it, or nothing
+changes and the binding has passed -/
+theorem sn_visit_post {rules : List Rule} {work : Str} {fs0 fs : FS} {path : Str} {node : Node} {fs1 : FS}
+    {r : SRes} (hctx : SanCtx work fs0 fs) (hA : SanAt (pathSegs work) fs path)
+    (hl : fs.lstat path = .ok node) (hv : prepVisit rules work fs path node = (fs1, r))
+    (hr : r = .cont ∨ r = .skipDir) :
+    (fs1 = fs.removeAll path ∧ ∀ q, pathSegs path <+: q → fs1.get q = none) ∨
+    (fs1 = fs ∧ r = .cont ∧ SanGood rules work fs (pathSegs path) node) := by
+  have hofs : ofSegs (pathSegs path) = path := (absClean_eq_ofSegs path hA.clean).symm
+  obtain ⟨rel, hrel, _, hjoin, _⟩ := pathRel_under work path hctx.clean hA.clean hA.under
+  rw [sn_prepVisit_eq] at hv
+  simp only [hrel] at hv
+  have hgone : rel ≠ dot → ∀ q, pathSegs path <+: q → (fs.removeAll path).get q = none := by
+    intro hdot
+    apply sn_removeAll_gone hA _ hl
+    intro e
+    have hW : pathSegs work = [] := by
+      have := hA.under; rw [e] at this; exact List.prefix_nil.mp this
+    have : path = work := absClean_ext _ _ hA.clean hctx.clean (by rw [e, hW])
+    rw [this, sn_pathRel_self] at hrel
+    cases hrel; exact hdot rfl
+  by_cases hdot : rel = dot
+  · rw [if_pos hdot] at hv
+    cases hv
+    exact Or.inr ⟨rfl, rfl, rel, by rw [hofs]; exact hrel, Or.inl hdot⟩
+  · rw [if_neg hdot] at hv
+    cases hex : (excludes rules rel).1 with
+    | true =>
+      rw [hex, if_pos rfl] at hv
+      cases hv
+      exact Or.inl ⟨rfl, hgone hdot⟩
+    | false =>
+      rw [hex] at hv
+      simp only [Bool.false_eq_true, if_false] at hv
+      cases hexd : (snIsDir node && (excludes rules (rel ++ ['/'])).1) with
+      | true =>
+        rw [hexd, if_pos rfl] at hv
+        cases hv
+        exact Or.inl ⟨rfl, hgone hdot⟩
+      | false =>
+        rw [hexd] at hv
+        simp only [Bool.false_eq_true, if_false] at hv
+        have h1 : fs = fs1 := congrArg Prod.fst hv
+        have h2 : snCheck fs work rel = r := congrArg Prod.snd hv
+        subst h1
+        have hcont : snCheck fs work rel = .cont := by
+          rcases sn_check_cases fs work rel with e | e
+          · exact e
+          · rw [e] at h2; rcases hr with rfl | rfl <;> cases h2
+        have hrc : r = .cont := by rw [← h2, hcont]
+        obtain ⟨absRoot, real, hroot, hreal, hpre, hkind⟩ := sn_check_cont hcont
+        obtain ⟨hrr, _⟩ := sn_evalSymlinks_some hroot
+        obtain ⟨rfl, _⟩ := sn_work_resolves hctx.clean hctx.real hctx.sub hrr
+        rw [← absClean_eq_ofSegs work hctx.clean, hjoin] at hreal
+        refine Or.inr ⟨rfl, hrc, rel, by rw [hofs]; exact hrel, Or.inr ⟨hex, hexd, ?_⟩⟩
+        cases node with
+        | file pm mt c => trivial
+        | dir pm mt => trivial
+        | link t => exact ⟨fs, real, SnSub.refl _, by rw [hofs]; exact hreal, hpre, hkind⟩
+        | special =>
+          exfalso
+          obtain ⟨hres, hlk⟩ := hA.lstat hl
+          have hnl : ∀ t, fs.lookup (pathSegs path) ≠ some (.link t) := by
+            intro t ht; rw [hlk] at ht; cases ht
+          have htrue : fs.resolvePath path true = .ok (pathSegs path) := by
+            rw [hA.resolve_eq hnl]; exact hres
+          have := sn_evalSymlinks_of_resolve htrue hlk
+          rw [this] at hreal
+          cases hreal
+          rcases hkind with ⟨pm, mt, c, e⟩ | ⟨pm, mt, e⟩ <;> rw [hlk] at e <;> cases e
+
+/-- a binding strictly below `P` lies at or below a bound child of `P` -/
+theorem sn_child_of_key {fs : FS} (hk : KeysPhysical fs) {k P : PPath} {n : Node} (hg : fs.get k = some n)
+    (hpre : P <+: k) (hne : k ≠ P) : ∃ c, P ++ [c] <+: k ∧ (fs.get (P ++ [c])).isSome = true := by
+  obtain ⟨x, rfl⟩ := hpre
+  cases x with
+  | nil => exact absurd (by simp) hne
+  | cons c x' =>
+    have hassoc : P ++ c :: x' = (P ++ [c]) ++ x' := by simp
+    refine ⟨c, by rw [hassoc]; exact List.prefix_append _ _, ?_⟩
+    by_cases hx : x' = []
+    · subst hx; rw [hg]; rfl
+    · obtain ⟨pm, mt, hd⟩ := keys_ancestors hk _ n hg (P ++ [c]) (by rw [hassoc]; exact List.prefix_append _ _)
+        (by
+          intro e
+          rw [hassoc] at e
+          have := congrArg List.length e
+          simp only [List.length_append, List.length_cons, List.length_nil] at this
+          exact hx (List.eq_nil_of_length_eq_zero (by omega)))
+      rw [lookup_ne_nil fs _ (by simp)] at hd
+      rw [hd]; rfl
+
+/-- nothing is bound below a non-directory -/
+theorem sn_nondir_leaf {fs : FS} (hk : KeysPhysical fs) {P k : PPath} {node n : Node}
+    (hP : fs.lookup P = some node) (hnd : snIsDir node = false) (hg : fs.get k = some n) (hpre : P <+: k) :
+    k = P := by
+  by_cases he : k = P
+  · exact he
+  · obtain ⟨pm, mt, hd⟩ := keys_ancestors hk k n hg P hpre (fun e => he e.symm)
+    rw [hP] at hd; cases hd; cases hnd
+
+/-- everything still bound at or below `P` has passed the callback -/
+def SanPost (rules : List Rule) (work : Str) (fs' : FS) (P : PPath) : Prop :=
+  ∀ k n, fs'.get k = some n → P <+: k → SanGood rules work fs' k n
+
+theorem sn_walk_post (rules : List Rule) (work : Str) (fs0 : FS) :
+    ∀ fuel : Nat,
+      (∀ fs path node fs' r, SanCtx work fs0 fs → SanAt (pathSegs work) fs path → fs.lstat path = .ok node →
+        prepWalk rules work fuel fs path node = (fs', r) → (r = .cont ∨ r = .skipDir) →
+        SanPost rules work fs' (pathSegs path)) ∧
+      (∀ fs path names fs' r, SanCtx work fs0 fs → SanAt (pathSegs work) fs path →
+        (∀ t, fs.lookup (pathSegs path) ≠ some (.link t)) → (∀ n ∈ names, NameNS n) →
+        prepChildren rules work fuel fs path names = (fs', r) → (r = .cont ∨ r = .skipDir) →
+        ∀ name ∈ names, SanPost rules work fs' (pathSegs path ++ [name])) := by
+  intro fuel
+  induction fuel with
+  | zero =>
+    refine ⟨?_, ?_⟩
+    · intro fs path node fs' r _ _ _ hw hr
+      rw [prepWalk] at hw; cases hw; rcases hr with h | h <;> cases h
+    · intro fs path names fs' r _ _ _ _ hw hr
+      rw [prepChildren] at hw; cases hw; rcases hr with h | h <;> cases h
+  | succ fuel ih =>
+    obtain ⟨ihW, ihC⟩ := ih
+    refine ⟨?_, ?_⟩
+    · intro fs path node fs' r hctx hA hl hw hr
+      -- a node that is not a directory: the callback alone
+      have hleaf : snIsDir node = false → prepVisit rules work fs path node = (fs', r) →
+          SanPost rules work fs' (pathSegs path) := by
+        intro hnd hv k n hg hpre
+        rcases sn_visit_post hctx hA hl hv hr with ⟨_, hgone⟩ | ⟨rfl, _, hgood⟩
+        · rw [hgone k hpre] at hg; cases hg
+        · have hk := sn_nondir_leaf hctx.keys (hA.lstat hl).2 hnd hg hpre
+          subst hk
+          have : fs'.lookup (pathSegs path) = some n := by
+            rw [lookup_ne_nil _ _ (hctx.keys _ _ hg).1]; exact hg
+          rw [(hA.lstat hl).2] at this
+          cases this
+          exact hgood
+      cases node with
+      | file pm mt c => rw [prepWalk] at hw; exact hleaf rfl hw; intro _ _ h; cases h
+      | link t => rw [prepWalk] at hw; exact hleaf rfl hw; intro _ _ h; cases h
+      | special => rw [prepWalk] at hw; exact hleaf rfl hw; intro _ _ h; cases h
+      | dir pm mt =>
+        obtain ⟨hnames, hns, hnl⟩ := sn_walk_names hctx.names hA hl
+        rw [prepWalk] at hw
+        simp only [hnames] at hw
+        generalize hv : prepVisit rules work fs path (.dir pm mt) = v at hw
+        obtain ⟨fs1, rv⟩ := v
+        have hstep1 : SnStep (pathSegs work) fs fs1 := by
+          have := snStep_prepVisit rules work (.dir pm mt) hA
+          rw [hv] at this; exact this
+        have hvanish : (∀ q, pathSegs path <+: q → fs1.get q = none) → SnSub fs' fs1 →
+            SanPost rules work fs' (pathSegs path) := by
+          intro hgone hs k n hg hpre
+          have := hs.get_some hg
+          rw [hgone k hpre] at this; cases this
+        cases rv with
+        | fail => simp only at hw; cases hw; rcases hr with h | h <;> cases h
+        | diverged => simp only at hw; cases hw; rcases hr with h | h <;> cases h
+        | skipDir =>
+          simp only at hw
+          cases hw
+          rcases sn_visit_post hctx hA hl hv (Or.inr rfl) with ⟨_, hgone⟩ | ⟨_, h, _⟩
+          · exact hvanish hgone (SnSub.refl _)
+          · cases h
+        | cont =>
+          simp only at hw
+          have hsub : SnSub fs' fs1 := by
+            have := (snSub_walk rules work fuel).2 fs1 path (fs.readdir (pathSegs path))
+            rw [hw] at this; exact this
+          rcases sn_visit_post hctx hA hl hv (Or.inl rfl) with ⟨_, hgone⟩ | ⟨rfl, _, hgood⟩
+          · exact hvanish hgone hsub
+          · have hkeys' : KeysPhysical fs' := by
+              have := (snStep_walk rules work (pathSegs work) fuel).2 fs1 path _ hctx.names hA hnl hns
+              rw [hw] at this
+              exact this.keys hctx.keys
+            have hC := ihC fs1 path _ fs' r hctx hA hnl hns hw hr
+            intro k n hg hpre
+            by_cases hk : k = pathSegs path
+            · subst hk
+              have h0 := hsub.get_some hg
+              have : fs1.lookup (pathSegs path) = some n := by
+                rw [lookup_ne_nil _ _ (hctx.keys _ _ h0).1]; exact h0
+              rw [(hA.lstat hl).2] at this
+              cases this
+              exact hgood.mono hsub
+            · obtain ⟨c, hc1, hc2⟩ := sn_child_of_key hkeys' hg hpre hk
+              have hc3 : (fs1.get (pathSegs path ++ [c])).isSome = true := by
+                cases hgc : fs'.get (pathSegs path ++ [c]) with
+                | none => rw [hgc] at hc2; cases hc2
+                | some m => rw [hsub.get_some hgc]; rfl
+              exact hC c ((sn_mem_readdir fs1 _ c).mpr hc3) k n hg hc1
+    · intro fs path names fs' r hctx hA hnl hns hw hr name hmem
+      cases names with
+      | nil => cases hmem
+      | cons nm rest =>
+        rw [prepChildren] at hw
+        simp only at hw
+        cases hc : fs.lstat (pathJoin path nm) with
+        | error e =>
+          rw [hc] at hw; simp only at hw; cases hw; rcases hr with h | h <;> cases h
+        | ok child =>
+          rw [hc] at hw
+          simp only at hw
+          obtain ⟨hA', hsegs⟩ := sanAt_child hA hnl (hns nm (by simp))
+          generalize hwk : prepWalk rules work fuel fs (pathJoin path nm) child = v at hw
+          obtain ⟨fs1, rc⟩ := v
+          have hstep1 : SnStep (pathSegs work) fs fs1 := by
+            have := (snStep_walk rules work (pathSegs work) fuel).1 fs _ child hctx.names hA' hc
+            rw [hwk] at this; exact this
+          have hrest : ∀ n ∈ rest, NameNS n := fun n hn => hns n (List.mem_cons_of_mem _ hn)
+          -- the loop goes on with the remaining names
+          have hgo : prepChildren rules work fuel fs1 path rest = (fs', r) →
+              (rc = .cont ∨ rc = .skipDir) → SanPost rules work fs' (pathSegs path ++ [name]) := by
+            intro hw' hrc
+            have hsub : SnSub fs' fs1 := by
+              have := (snSub_walk rules work fuel).2 fs1 path rest
+              rw [hw'] at this; exact this
+            rcases List.mem_cons.mp hmem with rfl | hmem'
+            · have hP := ihW fs _ child fs1 rc hctx hA' hc hwk hrc
+              rw [hsegs] at hP
+              intro k n hg hpre
+              exact (hP k n (hsub.get_some hg) hpre).mono hsub
+            · exact ihC fs1 path rest fs' r (hctx.step hstep1) (hA.sub hstep1.sub)
+                (sn_notLink_sub hstep1.sub hnl) hrest hw' hr name hmem'
+          cases rc with
+          | cont => simp only at hw; exact hgo hw (Or.inl rfl)
+          | fail => simp only at hw; cases hw; rcases hr with h | h <;> cases h
+          | diverged => simp only at hw; cases hw; rcases hr with h | h <;> cases h
+          | skipDir =>
+            simp only at hw
+            cases child with
+            | dir pm mt => simp only at hw; exact hgo hw (Or.inr rfl)
+            | file pm mt c => exact (sn_walk_nondir_noskip rfl hwk).elim
+            | link t => exact (sn_walk_nondir_noskip rfl hwk).elim
+            | special => exact (sn_walk_nondir_noskip rfl hwk).elim
+
+/-- the relative path `filepath.Rel` computes for a name strictly below the work directory -/
+theorem sn_pathRel_below {work : Str} (hc : AbsClean work) {x : List Seg} (hx : ∀ c ∈ x, NameNS c)
+    (hne : x ≠ []) :
+    pathRel work (ofSegs (pathSegs work ++ x)) = some (joinWith '/' x) ∧ joinWith '/' x ≠ dot := by
+  have hall : ∀ c ∈ pathSegs work ++ x, NameNS c := by
+    intro c hcm
+    rcases List.mem_append.mp hcm with h | h
+    · exact absClean_segs work hc c h
+    · exact hx c h
+  have hT : AbsClean (ofSegs (pathSegs work ++ x)) := absClean_ofSegs _ hall
+  have hsegs : pathSegs (ofSegs (pathSegs work ++ x)) = pathSegs work ++ x := pathSegs_ofSegs _ hall
+  obtain ⟨rel, hrel, _, _, hcase⟩ := pathRel_under work _ hc hT (by rw [hsegs]; exact List.prefix_append _ _)
+  rw [hsegs] at hcase
+  rcases hcase with ⟨e, _⟩ | ⟨e, hn⟩
+  · exfalso
+    have := congrArg List.length e
+    simp only [List.length_append] at this
+    exact hne (List.eq_nil_of_length_eq_zero (by omega))
+  · have hx' : x = splitOn '/' rel := List.append_cancel_left e
+    have hj : joinWith '/' x = rel := by rw [hx']; exact joinWith_splitOn '/' rel
+    rw [hj]
+    refine ⟨hrel, ?_⟩
+    intro hd
+    rw [hd] at hn
+    have : NameNS dot := hn dot (by decide)
+    exact this.1.2.1 rfl
+
+/-! ## resolution commutes with re-keying a closed subtree -/
+
+/-- number of leading `..` segments -/
+def snUps : List Seg → Nat
+  | [] => 0
+  | s :: r => if s = dotdot then snUps r + 1 else 0
+
+theorem snUps_append_names (a b : List Seg) (hb : ∀ x ∈ b, x ≠ dotdot) : snUps (a ++ b) = snUps a := by
+  induction a with
+  | nil =>
+    cases b with
+    | nil => rfl
+    | cons x r => simp [snUps, hb x (by simp)]
+  | cons s a ih =>
+    simp only [List.cons_append, snUps]
+    split
+    · rw [ih]
+    · rfl
+
+/-- a link at physical path `p` below `W` whose target is relative, tidy, and climbs no higher than
+`W`: following it never leaves the subtree -/
+def SnLocalLink (W p : PPath) (t : Str) : Prop :=
+  isAbs t = false ∧ Tidy t ∧ W.length + snUps (pathSegs t) + 1 ≤ p.length
+
+theorem sn_renameDir_lookup_moved (fs : FS) (src dst x : PPath) (hx : x ≠ [])
+    (hfree : ∀ e ∈ fs, ¬ dst <+: e.1) :
+    (fs.renameDir src dst).lookup (dst ++ x) = fs.lookup (src ++ x) := by
+  rw [lookup_ne_nil _ _ (by simp [hx]), lookup_ne_nil _ _ (by simp [hx])]
+  exact sn_renameDir_moved fs src dst x hfree
+
+/-- a walk inside the subtree at `W`, all of whose links are local, goes the same way in the
+subtree re-keyed to `F` -/
+theorem sn_resolve_rekey {fs : FS} {W F : PPath} (hfree : ∀ e ∈ fs, ¬ F <+: e.1)
+    (hloc : ∀ p t, fs.get p = some (.link t) → W <+: p → SnLocalLink W p t) :
+    ∀ (fuel : Nat) (c : PPath) (segs : List Seg) (follow : Bool) (r : PPath),
+      tidySegs segs = true → snUps segs ≤ c.length →
+      resolve fs fuel (W ++ c) segs follow = .ok r →
+      ∃ r', r = W ++ r' ∧ resolve (fs.renameDir W F) fuel (F ++ c) segs follow = .ok (F ++ r') := by
+  intro fuel
+  induction fuel with
+  | zero => intro c segs follow r _ _ h; simp [resolve] at h
+  | succ fuel ih =>
+    intro c segs follow r htidy hups h
+    cases segs with
+    | nil =>
+      simp only [resolve] at h ⊢
+      cases h
+      exact ⟨c, rfl, rfl⟩
+    | cons s rest =>
+      rw [resolve] at h ⊢
+      by_cases hs : s = dotdot
+      · subst hs
+        rw [if_pos rfl] at h ⊢
+        have hc : c ≠ [] := by
+          intro e; rw [e] at hups; simp [snUps] at hups
+        rw [List.dropLast_append_of_ne_nil hc] at h ⊢
+        apply ih _ _ _ _ (by rwa [tidySegs_dotdot] at htidy) _ h
+        simp only [snUps, if_true] at hups
+        rw [List.length_dropLast]; omega
+      · rw [if_neg hs] at h ⊢
+        simp only at h ⊢
+        have hnames := tidySegs_name_cons s rest hs htidy
+        have hrest : ∀ x ∈ rest, Plain x := fun x hx => hnames x (List.mem_cons_of_mem _ hx)
+        have hrestdd : ∀ x ∈ rest, x ≠ dotdot := fun x hx => (hrest x hx).2.2
+        have hups0 : snUps rest = 0 := by
+          have := snUps_append_names [] rest hrestdd
+          simpa [snUps] using this
+        have hlk : (fs.renameDir W F).lookup (F ++ c ++ [s]) = fs.lookup (W ++ c ++ [s]) := by
+          rw [List.append_assoc, List.append_assoc]
+          exact sn_renameDir_lookup_moved fs W F (c ++ [s]) (by simp) hfree
+        rw [hlk]
+        have hend : ∃ r', W ++ c ++ [s] = W ++ r' ∧ F ++ c ++ [s] = F ++ r' :=
+          ⟨c ++ [s], by simp, by simp⟩
+        cases hl : fs.lookup (W ++ c ++ [s]) with
+        | none =>
+          rw [hl] at h
+          simp only at h ⊢
+          split
+          · rename_i hr
+            rw [if_pos hr] at h; cases h
+            obtain ⟨r', e1, e2⟩ := hend
+            exact ⟨r', e1, by rw [e2]⟩
+          · rename_i hr; rw [if_neg hr] at h; cases h
+        | some n =>
+          rw [hl] at h
+          cases n with
+          | dir pm mt =>
+            simp only at h ⊢
+            rw [List.append_assoc] at h ⊢
+            exact ih _ _ _ _ (tidySegs_names rest hrest) (by rw [hups0]; exact Nat.zero_le _) h
+          | file pm mt c' =>
+            simp only at h ⊢
+            split
+            · rename_i hr
+              rw [if_pos hr] at h; cases h
+              obtain ⟨r', e1, e2⟩ := hend
+              exact ⟨r', e1, by rw [e2]⟩
+            · rename_i hr; rw [if_neg hr] at h; cases h
+          | special =>
+            simp only at h ⊢
+            split
+            · rename_i hr
+              rw [if_pos hr] at h; cases h
+              obtain ⟨r', e1, e2⟩ := hend
+              exact ⟨r', e1, by rw [e2]⟩
+            · rename_i hr; rw [if_neg hr] at h; cases h
+          | link t =>
+            simp only at h ⊢
+            have hget : fs.get (W ++ c ++ [s]) = some (.link t) := by
+              rw [← lookup_ne_nil fs _ (by simp)]; exact hl
+            obtain ⟨habs, httidy, hlen⟩ := hloc _ t hget (by rw [List.append_assoc]; exact List.prefix_append _ _)
+            split
+            · rename_i hr
+              rw [if_pos hr] at h; cases h
+              obtain ⟨r', e1, e2⟩ := hend
+              exact ⟨r', e1, by rw [e2]⟩
+            · rename_i hr
+              rw [if_neg hr] at h
+              simp only [habs, Bool.false_eq_true, if_false] at h ⊢
+              split
+              · rename_i ht; rw [if_pos ht] at h; cases h
+              · rename_i ht
+                rw [if_neg ht] at h
+                apply ih _ _ _ _ (tidySegs_append_names _ _ httidy hrest) _ h
+                rw [snUps_append_names _ _ hrestdd]
+                simp only [List.length_append, List.length_cons, List.length_nil] at hlen
+                omega
+
+/-- through a chain of real directories the walk just descends, one unit of fuel per component -/
+theorem sn_resolve_spine_eq (fs : FS) : ∀ (P : List Seg) (n : Nat) (cur : PPath) (x : List Seg) (f : Bool),
+    (∀ s ∈ P, s ≠ dotdot) →
+    (∀ q, cur <+: q → q ≠ cur → q <+: cur ++ P → ∃ pm mt, fs.lookup q = some (.dir pm mt)) →
+    resolve fs (n + P.length) cur (P ++ x) f = resolve fs n (cur ++ P) x f := by
+  intro P
+  induction P with
+  | nil => intro n cur x f _ _; simp
+  | cons s P ih =>
+    intro n cur x f hdd hsp
+    have hs : s ≠ dotdot := hdd s (by simp)
+    have hassoc : cur ++ s :: P = (cur ++ [s]) ++ P := by simp
+    obtain ⟨pm, mt, hl⟩ := hsp (cur ++ [s]) (List.prefix_append _ _)
+      (by
+        intro e
+        have := congrArg List.length e
+        simp only [List.length_append, List.length_cons, List.length_nil] at this
+        omega)
+      (by rw [hassoc]; exact List.prefix_append _ _)
+    have hlen : n + (s :: P).length = (n + P.length) + 1 := by simp; omega
+    rw [hlen, List.cons_append, resolve, if_neg hs]
+    simp only [hl]
+    rw [hassoc]
+    apply ih _ _ _ _ (fun y hy => hdd y (List.mem_cons_of_mem _ hy))
+    intro q h1 h2 h3
+    apply hsp q (List.IsPrefix.trans (List.prefix_append _ _) h1)
+    · intro e
+      rw [e] at h1
+      have := List.IsPrefix.length_le h1
+      simp only [List.length_append, List.length_cons, List.length_nil] at this
+      omega
+    · rw [hassoc]; exact h3
+
+/-- … and a successful walk through such a chain had the fuel for it -/
+theorem sn_resolve_spine_split (fs : FS) : ∀ (P : List Seg) (fuel : Nat) (cur : PPath) (x : List Seg) (f : Bool)
+    (r : PPath), (∀ s ∈ P, s ≠ dotdot) →
+    (∀ q, cur <+: q → q ≠ cur → q <+: cur ++ P → ∃ pm mt, fs.lookup q = some (.dir pm mt)) →
+    resolve fs fuel cur (P ++ x) f = .ok r →
+    ∃ n, fuel = n + P.length ∧ resolve fs n (cur ++ P) x f = .ok r := by
+  intro P
+  induction P with
+  | nil => intro fuel cur x f r _ _ h; exact ⟨fuel, rfl, by simpa using h⟩
+  | cons s P ih =>
+    intro fuel cur x f r hdd hsp h
+    have hs : s ≠ dotdot := hdd s (by simp)
+    have hassoc : cur ++ s :: P = (cur ++ [s]) ++ P := by simp
+    obtain ⟨pm, mt, hl⟩ := hsp (cur ++ [s]) (List.prefix_append _ _)
+      (by
+        intro e
+        have := congrArg List.length e
+        simp only [List.length_append, List.length_cons, List.length_nil] at this
+        omega)
+      (by rw [hassoc]; exact List.prefix_append _ _)
+    cases fuel with
+    | zero => simp [resolve] at h
+    | succ k =>
+      rw [List.cons_append, resolve, if_neg hs] at h
+      simp only [hl] at h
+      obtain ⟨n, hn, hr⟩ := ih k (cur ++ [s]) x f r (fun y hy => hdd y (List.mem_cons_of_mem _ hy))
+        (by
+          intro q h1 h2 h3
+          apply hsp q (List.IsPrefix.trans (List.prefix_append _ _) h1)
+          · intro e
+            rw [e] at h1
+            have := List.IsPrefix.length_le h1
+            simp only [List.length_append, List.length_cons, List.length_nil] at this
+            omega
+          · rw [hassoc]; exact h3) h
+      refine ⟨n, by simp only [List.length_cons]; omega, ?_⟩
+      rw [hassoc]; exact hr
 
 end Slug
